@@ -1,3 +1,4 @@
+import Mdsort.Proofs.GenBridge
 import Mdsort.Proofs.Eval
 import Mdsort.Proofs.EvalAtt
 import Mdsort.Proofs.EvalAttBridge
